@@ -135,13 +135,21 @@ impl<'a> LspServer<'a> {
     fn handle_request(&self, req: lsp_server::Request) -> &'static str {
         let req_id = req.id.clone();
         let req = match Self::cast_request::<request::Shutdown>(req) {
-            Ok(_params) => {
+            Ok(Some(_params)) => {
+                return request::Shutdown::METHOD;
+            }
+            Ok(None) => {
+                self.send_invalid_params(req_id, request::Shutdown::METHOD);
                 return request::Shutdown::METHOD;
             }
             Err(req) => req,
         };
         let request = match Self::cast_request::<request::SemanticTokensFullRequest>(req) {
-            Ok(params) => {
+            Ok(None) => {
+                self.send_invalid_params(req_id, request::SemanticTokensFullRequest::METHOD);
+                return request::SemanticTokensFullRequest::METHOD;
+            }
+            Ok(Some(params)) => {
                 let uri = params.text_document.uri;
                 let token_result = self.project.tokenize(&uri);
 
@@ -177,18 +185,36 @@ impl<'a> LspServer<'a> {
         ""
     }
 
-    fn cast_request<T>(request: lsp_server::Request) -> Result<T::Params, lsp_server::Request>
+    /// Casts the request to the method `T`.
+    ///
+    /// Returns `Err` with the request if the request is for another method,
+    /// `Ok(None)` if the request is for this method but the parameters are
+    /// not valid for the method.
+    fn cast_request<T>(
+        request: lsp_server::Request,
+    ) -> Result<Option<T::Params>, lsp_server::Request>
     where
         T: lsp_types::request::Request,
         T::Params: DeserializeOwned,
     {
-        request
-            .extract(T::METHOD)
-            .map(|val| val.1)
-            .map_err(|e| match e {
-                ExtractError::MethodMismatch(n) => n,
-                err @ ExtractError::JsonError { .. } => panic!("Invalid request: {err:?}"),
-            })
+        match request.extract(T::METHOD) {
+            Ok(val) => Ok(Some(val.1)),
+            Err(ExtractError::MethodMismatch(n)) => Err(n),
+            Err(err @ ExtractError::JsonError { .. }) => {
+                debug!("Invalid request parameters: {err:?}");
+                Ok(None)
+            }
+        }
+    }
+
+    /// Answers a request whose parameters are not valid for its method.
+    fn send_invalid_params(&self, request_id: RequestId, method: &str) {
+        let response = lsp_server::Response::new_err(
+            request_id,
+            lsp_server::ErrorCode::InvalidParams as i32,
+            format!("Invalid parameters for method: {}", method),
+        );
+        self.sender.send(Message::Response(response)).unwrap()
     }
 
     fn send_response<R>(&self, request_id: RequestId, params: R::Result)
@@ -211,7 +237,8 @@ impl<'a> LspServer<'a> {
 
         let _notification =
             match Self::cast_notification::<notification::DidOpenTextDocument>(notification) {
-                Ok(params) => {
+                Ok(None) => return notification::DidOpenTextDocument::METHOD,
+                Ok(Some(params)) => {
                     trace!("DidChangeTextDocument {}", params.text_document.uri);
                     let contents = params.text_document.text;
                     let uri = params.text_document.uri;
@@ -234,7 +261,8 @@ impl<'a> LspServer<'a> {
 
         let _notification =
             match Self::cast_notification::<notification::DidChangeTextDocument>(notification) {
-                Ok(params) => {
+                Ok(None) => return notification::DidChangeTextDocument::METHOD,
+                Ok(Some(params)) => {
                     trace!("DidChangeTextDocument {}", params.text_document.uri);
                     let uri = params.text_document.uri;
                     let version = params.text_document.version;
@@ -261,21 +289,28 @@ impl<'a> LspServer<'a> {
         ""
     }
 
+    /// Casts the notification to the method `T`.
+    ///
+    /// Returns `Err` with the notification if the notification is for another
+    /// method, `Ok(None)` if the notification is for this method but the
+    /// parameters are not valid for the method. A notification is never
+    /// answered, so such a notification can only be ignored.
     fn cast_notification<T>(
         notification: &lsp_server::Notification,
-    ) -> Result<T::Params, lsp_server::Notification>
+    ) -> Result<Option<T::Params>, lsp_server::Notification>
     where
         T: lsp_types::notification::Notification,
         T::Params: DeserializeOwned,
     {
         // TODO why do I have this clone?
-        notification
-            .clone()
-            .extract(T::METHOD)
-            .map_err(|e| match e {
-                ExtractError::MethodMismatch(n) => n,
-                err @ ExtractError::JsonError { .. } => panic!("Invalid notification: {err:?}"),
-            })
+        match notification.clone().extract(T::METHOD) {
+            Ok(params) => Ok(Some(params)),
+            Err(ExtractError::MethodMismatch(n)) => Err(n),
+            Err(err @ ExtractError::JsonError { .. }) => {
+                debug!("Ignoring notification with invalid parameters: {err:?}");
+                Ok(None)
+            }
+        }
     }
 
     fn send_notification<N>(&self, params: N::Params)
